@@ -52,7 +52,34 @@ Seed5 == <<"@kernel", "void", "k", "(", "const", "int", "N", ",", "int", "*", "a
   "break", ";", "default", ":", "a", "[", "o", "]", "=", "sizeof", "(", "i", ")", ";", "}",
   "}", "}", "}", "}">>
 
-MCSeeds == <<Seed1, Seed2, Seed3, Seed4, Seed5>>
+\* seed 6 (variadic): 167 tokens
+Seed6 == <<"#define", "FIRST(", "x", ",", "...", ")", "x", "\n", "#define", "PICK(", "a",
+  ",", "b", ",", "...", ")", "b", "\n", "#define", "FWD(", "...", ")", "PICK(",
+  "__VA_ARGS__", ")", "\n", "#define", "ADD(", "a", ",", "b", ")", "(", "(", "a", ")", "+",
+  "(", "b", ")", ")", "\n", "#define", "TWICE(", "f", ",", "v", ")", "f(", "f(", "v", ",",
+  "1", ")", ",", "1", ")", "\n", "@kernel", "void", "k", "(", "const", "int", "N", ",",
+  "float", "*", "a", ")", "{", "for", "(", "int", "o", "=", "0", ";", "o", "<", "N", ";",
+  "++", "o", ";", "@outer", ")", "{", "for", "(", "int", "i", "=", "0", ";", "i", "<", "4",
+  ";", "++", "i", ";", "@inner", ")", "{", "a", "[", "FIRST(", "i", ")", "]", "=", "PICK(",
+  "1", ",", "2", ")", ";", "a", "[", "FIRST(", "i", ",", "o", ")", "]", "=", "PICK(", "1",
+  ",", "2", ",", "3", ")", "+", "FWD(", "4", ",", "5", ",", "6", ")", ";", "a", "[", "o",
+  "]", "=", "ADD(", "FIRST(", "1", ",", "2", ",", "3", ")", ",", "TWICE(", "ADD", ",", "i",
+  ")", ")", ";", "}", "}", "}">>
+
+\* seed 7 (cond): 152 tokens
+Seed7 == <<"#define", "A", "1", "\n", "#define", "B", "A", "\n", "#define", "C", "(", "B",
+  "+", "1", ")", "\n", "#if", "C", ">", "1", "\n", "#define", "D", "4", "\n", "#elif", "C",
+  "==", "1", "\n", "#define", "D", "2", "\n", "#else", "\n", "#define", "D", "1", "\n",
+  "#endif", "\n", "#undef", "A", "\n", "#define", "A", "2", "\n", "#ifdef", "D", "\n",
+  "#ifndef", "E", "\n", "#define", "E", "D", "\n", "#endif", "\n", "#endif", "\n", "#if",
+  "defined", "(", "E", ")", "&&", "!", "defined", "(", "F", ")", "\n", "#define", "F(", "x",
+  ")", "(", "x", "*", "E", ")", "\n", "#endif", "\n", "@kernel", "void", "k", "(", "const",
+  "int", "N", ",", "float", "*", "a", ")", "{", "for", "(", "int", "o", "=", "0", ";", "o",
+  "<", "N", ";", "++", "o", ";", "@outer", ")", "{", "for", "(", "int", "i", "=", "0", ";",
+  "i", "<", "E", ";", "++", "i", ";", "@inner", ")", "{", "a", "[", "i", "]", "=", "A", "+",
+  "B", "+", "C", "+", "F(", "o", ")", ";", "}", "}", "}">>
+
+MCSeeds == <<Seed1, Seed2, Seed3, Seed4, Seed5, Seed6, Seed7>>
 
 \* punctuators: every bracket, separators, the attribute marker, operators of each arity,
 \* the preprocessor marker, quote characters (unterminated literal), a newline
